@@ -65,6 +65,7 @@ def loadhist(ctx, vecs, label, aspects, devs, extra=()):
 
 LOADER_CFG = """SPECIFICATION LSpec
 CONSTANTS MaxLoads = {n}
+  PrefixIds = {prefixes}
   KnownDev = {known}
 INVARIANTS AlwaysValid AsIfNeverHappened Emit
 PROPERTIES Atomic
@@ -80,16 +81,18 @@ CHECK_DEADLOCK FALSE
 
 def run_c14(ctx):
     devs = known_devs()
-    n = 3 if ctx.tier == "quick" else 4
-    res = vlib.run_tlc(ctx, "MCLoader", LOADER_CFG.format(n=n, known=tlaset(sorted(devs))), timeout=3400, xss="64m")
-    vlib.require_clean(res, "MCLoader")
-    loadhist(ctx, res.vecs, "histories", {"verdict", "atomic", "schema"}, devs)
+    plans = [(2, ["p0", "p1", "p2", "p3"])] if ctx.tier == "quick" else [(3, ["p0", "p1"]), (2, ["p2", "p3"])]
+    n = max(p[0] for p in plans)
+    for k, prefixes in plans:
+        res = vlib.run_tlc(ctx, "MCLoader", LOADER_CFG.format(n=k, prefixes=tlaset(prefixes), known=tlaset(sorted(devs))), timeout=3400, xss="64m")
+        vlib.require_clean(res, "MCLoader")
+        loadhist(ctx, res.vecs, "histories-%d-%s" % (k, "".join(prefixes)), {"verdict", "atomic", "schema"}, devs)
     ctx.exhaustive = True
     ctx.rule = ("every history of %d loads over the %d documents of spec/LoadUniverse.tla (12 valid ones incl. extend and schema blocks, 15 failing ones: "
                 "syntax error, reader failure, undefined reference, duplicate, failed extension of each kind, validation failure - each after valid content) "
-                "is replayed on one real Root; after every load the verdict and the schema read back through the API (types, fields, arguments, defaults, "
+                "(quick: 2 loads after each of 4 prefixes of valid loads; thorough: 3 loads after the empty and the base prefix) is replayed on one real Root; after every load the verdict and the schema read back through the API (types, fields, arguments, defaults, "
                 "directive uses, enum values, members, interfaces, directives, operation roots) must equal what Loader!LoadResult prescribes - in particular "
-                "unchanged after a refused load (TLC: action property Atomic, invariant AsIfNeverHappened). non-trivial = history containing a refused load" % (n, 27))
+                "unchanged after a refused load (TLC: action property Atomic, invariant AsIfNeverHappened). non-trivial = history containing a refused load" % (n, 35))
     ctx.assumptions.append("observable state = the canonical schema read back through Types()/GetType()/verif accessors; responses to requests are covered by C17/C01 on such roots")
 
 
@@ -110,7 +113,29 @@ def run_c16(ctx):
                 "non-trivial = arrangement with more than one load or an extend block")
 
 
-RUNNERS = {"C14": run_c14, "C16": run_c16}
+RULES_CFG = """SPECIFICATION RSpec
+CONSTANTS KnownDev = {known}
+INVARIANTS BasesValid MutationsRefused Emit
+CHECK_DEADLOCK FALSE
+"""
+
+
+def run_c13(ctx):
+    devs = known_devs()
+    res = vlib.run_tlc(ctx, "MCRules", RULES_CFG.format(known=tlaset(sorted(devs))), timeout=3400, xss="64m")
+    vlib.require_clean(res, "MCRules")
+    rep = loadhist(ctx, res.vecs, "mutations", {"verdict", "offender", "schema"}, devs, extra=["-offender"])
+    muts = sorted({v["tag"].split(":", 1)[1] for v in res.vecs})
+    ctx.extra["mutation_kinds"] = muts
+    ctx.exhaustive = True
+    ctx.rule = ("2 hand-built well-formed base schemas (all kinds, nested wrappers, extends, schema block, directive uses at every level, defaults, "
+                "descriptions) x every mutation of the catalogue in spec/MCRules.tla at every applicable position (%d kinds of mutation, %d mutated "
+                "documents): the verdict and the set of acceptable offender names are computed by SchemaRules!Violations, not by the mutation's label "
+                "(TLC checks that every mutation is refused by the specification and every base accepted); each document is loaded into a fresh real Root: "
+                "verdict, offender named by the error, and for accepted documents the read-back schema must agree. non-trivial = refused document" % (len(muts), len(res.vecs)))
+
+
+RUNNERS = {"C13": run_c13, "C14": run_c14, "C16": run_c16}
 
 
 def run(ctx):
